@@ -1,7 +1,7 @@
 """C05 — weight accounting matches the set of held keys at quiescence.  (DESIGN §4 C05)"""
 from core import (enum_paths, path_atoms, path_calls, path_return, ret_variant, same_value, strip_site, dashmap_call,
                   inline_ctor, fmt, root_calls, field_path, variant_edges, subst_params)
-from weight import WeightModel
+from weight import WeightModel, accounting_flow
 from storemodel import StoreModel, local_uses
 
 LEVEL = "other"
@@ -187,6 +187,9 @@ def run(ctx):
         ids = [x for x in _subs(r) if x[0] == "field" and x[2] == "key_id" and root_calls(x) and strip_site(root_calls(x)[0]) == strip_site(removed)]
         ctx.check(bool(ids), "R05.2", "%s|returns-removed-id" % f.name,
                   "the store removal reports the key id of the entry it removed", f.where(bb), fmt(r)[:200])
+
+    # R05.4 = R01.4
+    accounting_flow(ctx, M, "R05.4")
 
     # R05.5 clear resets both
     for s in M.sites:
